@@ -393,8 +393,11 @@ fn build_bfs_only(case: &Case, t: &Tr, alt: bool) -> Goal<TU, TE> {
                 .iter()
                 .map(|(h, r)| {
                     let mut v = vec![build::<Gl>(case, h, alt)];
-                    if *r != Tr::Succeed {
-                        v.push(build::<Gl>(case, r, alt));
+                    match r {
+                        Tr::Succeed => {}
+                        // `[h, r1, r2]`: a clause is handed over as the flat list of its goals
+                        Tr::Conj(rs) => v.extend(rs.iter().map(|x| build::<Gl>(case, x, alt))),
+                        _ => v.push(build::<Gl>(case, r, alt)),
                     }
                     v
                 })
